@@ -1,6 +1,12 @@
 (* C08: hub subscriptions.  Codes: 0 ok | 1 model/implementation mismatch (sequential mode) |
-   2 property rejected on the observation | 3 both *)
-From BV Require Import Base.Prelude Model.Block Model.ForkDB Model.Forkable Model.ForkableLookups Model.Burst Model.Hub Model.HubSubs
+   2 property rejected on the observation | 3 both.
+
+   V2 (finding W1-C08-2): the model run pushes with Model/HubAll.v [push_block_all] = the fan-out of
+   [hub_live_all], which hands the subscriptions EVERY event of the hub's Forkable, before readiness too
+   (for a ready hub it is HubSubs.push_block: Proofs/C08_LiveAll.v hub_live_all_ready).  Cases whose hub is
+   not ready when subscriptions are requested are generated (harness/c08.go, class names "not-ready"); a
+   push may come with the one-block files the store offers at that moment ([c08x_case], passes). *)
+From BV Require Import Base.Prelude Model.Block Model.ForkDB Model.Forkable Model.ForkableLookups Model.Burst Model.Hub Model.HubSubs Model.HubAll
   Spec.Consumer Check.Fk_Check Check.Burst_Check.
 Local Open Scope N_scope.
 
@@ -35,29 +41,31 @@ Definition boot_hub (first kept : N) (boot : list block) : hub :=
   end.
 
 (* sequential replay: per served subscription the chunks its drains must return *)
-Fixpoint seq_run (first kept : N) (sh : shub) (live : list block) (ops : list c08_op) (reqs : list sub_obs)
+Fixpoint seq_run (first kept : N) (sh : shub) (live : list block) (passes : list (list block))
+         (ops : list c08_op) (reqs : list sub_obs)
          (chunks : list (list (list qitem))) (served : list bool) : list (list (list qitem)) * list bool * shub :=
   match ops with
   | [] => (chunks, served, sh)
   | OpPush :: ops' =>
       match live with
-      | [] => seq_run first kept sh live ops' reqs chunks served
-      | b :: live' => let '(sh', _) := push_block first kept sh b in seq_run first kept sh' live' ops' reqs chunks served
+      | [] => seq_run first kept sh live passes ops' reqs chunks served
+      | b :: live' => let '(sh', _) := push_block_all first kept (PBlocks (hd [] passes)) sh b in
+                      seq_run first kept sh' live' (tl passes) ops' reqs chunks served
       end
   | OpSub :: ops' =>
       match reqs with
-      | [] => seq_run first kept sh live ops' reqs chunks served
+      | [] => seq_run first kept sh live passes ops' reqs chunks served
       | o :: reqs' =>
           match req_of o with
-          | None => seq_run first kept sh live ops' reqs' chunks (served ++ [false])
+          | None => seq_run first kept sh live passes ops' reqs' chunks (served ++ [false])
           | Some r => let '(sh', ok) := subscribe sh r in
-                      seq_run first kept sh' live ops' reqs' (if ok then chunks ++ [[]] else chunks) (served ++ [ok])
+                      seq_run first kept sh' live passes ops' reqs' (if ok then chunks ++ [[]] else chunks) (served ++ [ok])
           end
       end
   | OpDrain w skip0 :: ops' =>
       match length (sh_subs sh) with
-      | O => seq_run first kept sh live ops' reqs chunks served
-      | n => if skip0 && Nat.eqb n 1 then seq_run first kept sh live ops' reqs chunks served else
+      | O => seq_run first kept sh live passes ops' reqs chunks served
+      | n => if skip0 && Nat.eqb n 1 then seq_run first kept sh live passes ops' reqs chunks served else
              let k := if skip0 then S (N.to_nat (w mod N.of_nat (n - 1))) else N.to_nat (w mod N.of_nat n) in
              let '(subs', q) := drain_nth k (sh_subs sh) in
              let chunks' := (fix upd (i : nat) (l : list (list (list qitem))) :=
@@ -65,7 +73,7 @@ Fixpoint seq_run (first kept : N) (sh : shub) (live : list block) (ops : list c0
                                | [] => []
                                | c :: l' => match i with O => (c ++ [q]) :: l' | S i' => c :: upd i' l' end
                                end) k chunks in
-             seq_run first kept (mkSH (sh_hub sh) subs') live ops' reqs chunks' served
+             seq_run first kept (mkSH (sh_hub sh) subs') live passes ops' reqs chunks' served
       end
   end.
 
@@ -96,7 +104,8 @@ Fixpoint zip3_ok (obs : list sub_obs) (chunks : list (list (list qitem))) (subs 
       else zip3_ok obs' chunks subs
   end.
 
-Definition c08_corresponds (k : c08_case) : bool :=
+(* passes: for the n-th push the one-block files the store offers then (missing = none) *)
+Definition c08_corresponds_p (passes : list (list block)) (k : c08_case) : bool :=
   match k with
   | C08Skip => true
   | mkC08 mode first kept boot live ops log log_at subs nsubs pushed =>
@@ -105,11 +114,13 @@ Definition c08_corresponds (k : c08_case) : bool :=
         let h0 := boot_hub first kept boot in
         (* the tracker is the first subscription of the real hub; it is drained after every push and is
            not part of the model's list *)
-        let '(chunks, served, sh) := seq_run first kept (mkSH h0 []) live ops subs [] [] in
+        let '(chunks, served, sh) := seq_run first kept (mkSH h0 []) live passes ops subs [] [] in
         list_eqb Bool.eqb served (map so_served subs) &&
         zip3_ok subs chunks (sh_subs sh) &&
         (N.of_nat (length (filter (fun s => negb (ms_dropped s)) (sh_subs sh))) =? nsubs)
   end.
+
+Definition c08_corresponds (k : c08_case) : bool := c08_corresponds_p [] k.
 
 (* ---- property, from the observation alone ---- *)
 
@@ -240,3 +251,10 @@ Definition c08_prop (k : c08_case) : bool :=
 Definition c08_verdict (k : c08_case) : N := (if c08_corresponds k then 0 else 1) + (if c08_prop k then 0 else 2).
 Definition c08_verdicts (l : list c08_case) := nonzero (map c08_verdict l).
 Definition c08_in_scope (k : c08_case) : bool := match k with C08Skip => false | _ => true end.
+
+(* the case as the harness writes it: the observation with the per-push one-block passes *)
+Inductive c08x_case := mkC08X (passes : list (list block)) (k : c08_case).
+Definition c08x_verdict (x : c08x_case) : N :=
+  match x with mkC08X passes k => (if c08_corresponds_p passes k then 0 else 1) + (if c08_prop k then 0 else 2) end.
+Definition c08x_verdicts (l : list c08x_case) := nonzero (map c08x_verdict l).
+Definition c08x_in_scope (x : c08x_case) : bool := match x with mkC08X _ k => c08_in_scope k end.
